@@ -1,5 +1,7 @@
 """Prototype symbolic interpreter over parsed MIR with decision-replay path exploration (z3)."""
+import os
 import re
+import time
 import z3
 from .mirparse import Unsupported, Place
 
@@ -49,6 +51,38 @@ class Struct:
         return f'Struct({self.name},{self.fields})'
 
 
+class Hole:
+    """an uninterpreted piece of text inside an RStr (e.g. `<T as TS>::name()` for abstract T, or a string the code
+    only copies around). Code that inspects it (compares, searches) makes the run Unsupported."""
+    __slots__ = ('label',)
+
+    def __init__(self, label):
+        self.label = label
+
+    def __repr__(self):
+        return f'<{self.label}>'
+
+    def __eq__(self, o):
+        return isinstance(o, Hole) and self.label == o.label
+
+    def __hash__(self):
+        return hash(('Hole', self.label))
+
+
+def lazy_value(tag, ty):
+    """fresh symbolic value of the Rust type `ty` (as printed in a MIR projection)"""
+    t = ty.strip()
+    for pre in ('std::option::Option<', 'core::option::Option<', 'Option<'):
+        if t.startswith(pre) and t.endswith('>'):
+            d = z3.Bool(f'{tag}.is_some')
+            return Enum(z3.If(d, z3.BitVecVal(1, 64), z3.BitVecVal(0, 64)), [lazy_value(tag + '.some', t[len(pre):-1])], 'Option?')
+    if t == 'bool':
+        return z3.Bool(tag)
+    if t in ('String', 'std::string::String', '&str', "&'static str"):
+        return RStr([Hole(tag)])
+    return Lazy(tag)
+
+
 class Lazy:
     """opaque struct/enum whose parts come into existence when the code looks at them;
     the MIR projection's type annotation says what to create"""
@@ -62,15 +96,7 @@ class Lazy:
     def get(self, m, idx, ty):
         if idx not in self.parts:
             Lazy.n += 1
-            tag = f'{self.label}.{idx}'
-            t = ty.strip()
-            if t.startswith(('Option<', 'std::option::Option<')):
-                d = z3.Bool(f'{tag}.is_some')
-                self.parts[idx] = Enum(z3.If(d, z3.BitVecVal(1, 64), z3.BitVecVal(0, 64)), [Lazy(tag + '.some')], 'Option?')
-            elif t == 'bool':
-                self.parts[idx] = z3.Bool(tag)
-            else:
-                self.parts[idx] = Lazy(tag)
+            self.parts[idx] = lazy_value(f'{self.label}.{idx}', ty)
         return self.parts[idx]
 
     def discriminant(self, n_variants):
@@ -116,17 +142,19 @@ def bv(v, w):
 
 # ---------------------------------------------------------------- explorer
 class Explorer:
-    def __init__(self, budget=200000):
+    def __init__(self, budget=200000, time_budget=None, timeout_ms=60000):
         self.solver = z3.Solver()
+        self.solver.set('timeout', timeout_ms)
         self.work = [[]]
         self.paths = 0
+        self.nontrivial = 0
         self.queries = 0
         self.solver_s = 0.0
         self.budget = budget
+        self.deadline = (time.time() + time_budget) if time_budget else None
 
     def run(self, harness):
-        """harness(ctx) is run once per path; returns list of path results"""
-        import time
+        """harness(ctx) is run once per path; returns list of (path condition, result)"""
         results = []
         while self.work:
             prefix = self.work.pop()
@@ -137,17 +165,25 @@ class Explorer:
             except Infeasible:
                 continue
             self.paths += 1
+            if ctx.forks:
+                self.nontrivial += 1
             if self.paths > self.budget:
                 raise Unsupported('path budget exceeded')
+            if self.deadline and time.time() > self.deadline:
+                raise Unsupported('time budget exceeded')
         return results
 
     def check(self, exprs):
-        import time
         t = time.time()
         self.queries += 1
         r = self.solver.check(*exprs)
         self.solver_s += time.time() - t
+        if r == z3.unknown:
+            raise Unsupported('solver answered unknown: ' + self.solver.reason_unknown())
         return r
+
+    def model(self):
+        return self.solver.model()
 
 
 class Ctx:
@@ -156,6 +192,17 @@ class Ctx:
         self.prefix = prefix
         self.i = 0
         self.pc = []
+        self.forks = 0
+        self.pc_sat = False      # invariant: when True, the conjunction of self.pc is known to be satisfiable
+
+    def assume(self, cond):
+        """add a path-local assumption (used by harness-level case splits)"""
+        if isinstance(cond, bool):
+            if not cond:
+                raise Infeasible()
+            return
+        self.pc.append(cond)
+        self.pc_sat = False
 
     def decide(self, cond):
         """cond: python bool or z3 Bool. returns python bool, forking if both feasible"""
@@ -170,14 +217,17 @@ class Ctx:
             b = self.prefix[self.i]
             self.i += 1
             self.pc.append(cond if b else z3.Not(cond))
+            self.forks += 1
             return b
         t = self.ex.check(self.pc + [cond]) == z3.sat
-        f = self.ex.check(self.pc + [z3.Not(cond)]) == z3.sat
+        f = True if (not t and self.pc_sat) else (self.ex.check(self.pc + [z3.Not(cond)]) == z3.sat)
+        self.pc_sat = True
         if t and f:
             self.ex.work.append(self.prefix[:self.i] + [False])
             self.prefix = self.prefix[:self.i] + [True]
             self.i += 1
             self.pc.append(cond)
+            self.forks += 1
             return True
         if not t and not f:
             raise Infeasible()
@@ -186,6 +236,14 @@ class Ctx:
         self.i += 1
         self.pc.append(cond if b else z3.Not(cond))
         return b
+
+    def pick(self, var, n):
+        """case split on an integer-valued z3 variable with values 0..n-1"""
+        for v in range(n - 1):
+            if self.decide(var == v):
+                return v
+        self.assume(var == n - 1)
+        return n - 1
 
 
 # ---------------------------------------------------------------- interpreter
@@ -208,6 +266,9 @@ class Machine:
         self.calls = set()
         self.enum_variants = enum_variants or {}
         self.env = {}
+        self.stubs = []            # [(compiled regex, fn)] -- take precedence over real MIR bodies; listed in the evidence
+        self.stub_hits = set()
+        self.struct_fields = {}
 
     # ---- places
     def read_place(self, fr, pl):
@@ -330,7 +391,13 @@ class Machine:
         if k == 'variant':
             return self.make_variant(rv[1], [self.operand(fr, o) for o in rv[2]])
         if k == 'struct':
-            return Struct([self.operand(fr, o) for _, o in rv[2]], rv[1])
+            vals = [self.operand(fr, o) for _, o in rv[2]]
+            base = re.sub(r'::<.*?>(?=::|$)', '', rv[1])
+            ty, _, var = base.rpartition('::')
+            key = ty.split('::')[-1]
+            if key in self.enum_variants and var in self.enum_variants[key]:
+                return Enum(self.enum_variants[key].index(var), vals, var)
+            return Struct(vals, rv[1])
         if k == 'binop':
             a, b = self.operand(fr, rv[2]), self.operand(fr, rv[3])
             w = INTW.get(self.type_of(fr, rv[2]) or self.type_of(fr, rv[3]) or 'usize', 64)
@@ -451,11 +518,41 @@ class Machine:
                 continue
             if name.endswith('>::' + meth) and '<impl at ' in name:
                 first = f.params[0][1] if f.params else ''
-                if ty.split('::')[-1] in (first.lstrip('&').replace('mut ', ''), f.ret):
+                if ty.split('::')[-1] in (first.lstrip('&').replace('mut ', ''), f.ret, self._norm_ty(first), self._norm_ty(f.ret)):
                     cands.append(f)
+        if len(cands) > 1:
+            inherent = [f for f in cands if ' for ' not in (self.impl_header(f.name) or ' for ')]
+            if len(inherent) == 1:
+                return inherent[0]
         if len(cands) == 1:
             return cands[0]
         return None
+
+    _HDR = {}
+    src_roots = ['/repo']
+
+    def impl_header(self, name):
+        """source text of the `impl ..` header a MIR symbol `<impl at file:l:c: l:c>` points to (None if unreadable)"""
+        mm = re.search(r'<impl at ([^:>]+):(\d+):(\d+): (\d+):(\d+)>', name)
+        if not mm:
+            return None
+        key = mm.group(0)
+        if key in Machine._HDR:
+            return Machine._HDR[key]
+        txt = None
+        for root in self.src_roots:
+            p = os.path.join(root, mm.group(1))
+            if os.path.exists(p):
+                with open(p) as fh:
+                    lines = fh.read().split('\n')
+                l1, c1, l2, c2 = (int(mm.group(i)) for i in (2, 3, 4, 5))
+                if l1 == l2:
+                    txt = lines[l1 - 1][c1 - 1:c2 - 1]
+                else:
+                    txt = '\n'.join([lines[l1 - 1][c1 - 1:]] + lines[l1:l2 - 1] + [lines[l2 - 1][:c2 - 1]])
+                break
+        Machine._HDR[key] = txt
+        return txt
 
     def call_closure(self, clo, args):
         key = clo[1] if isinstance(clo, tuple) else str(clo)
@@ -468,6 +565,10 @@ class Machine:
         for p_, v in getattr(self, 'cur_subst', {}).items():
             callee = re.sub(r'\b' + p_ + r'\b', v, callee)
         self.calls.add(re.sub(r'\s+', ' ', callee))
+        for pat, stub in self.stubs:
+            if pat.search(callee):
+                self.stub_hits.add(pat.pattern)
+                return stub(self, callee, args)
         f = self.resolve(callee)
         if f is not None:
             saved = getattr(self, 'cur_subst', {})
